@@ -94,7 +94,7 @@ def show_canon(c):
 # ---------------------------------------------------------------------------------------------------
 # generator
 # ---------------------------------------------------------------------------------------------------
-PROBS = ["0.01", "0.02", "0.125", "0.25", "0.5", "0.03125"]
+PROBS = ["0.01", "0.0123456789", "0.125", "0.3333333333333333", "0.5", "0.03125", "0.02", "0.25", "0.0014285714285714286"]   # incl. more than six significant digits
 NONDESTRUCTIVE1 = ["M", "MX", "MY"]
 RESETTING1 = ["MR", "MRX", "MRY"]
 PAIR = ["MXX", "MYY", "MZZ"]
